@@ -212,6 +212,50 @@ func runC01(c *Ctx) {
 		}
 		descr = append(descr, fmt.Sprintf("%s/%s: %s {%s}", p.Name, p.Transport, planString(p, len(p.Pkts)), strings.Join(notes, "; ")))
 	}
+	if !tw.NTLM && c.T.Bool(1, 10) {
+		// one connection id used by several connections one after the other: a legacy
+		// RDG_OUT_DATA request that is never completed, a websocket connection that gets as far
+		// as tunnel authorisation and leaves, then a websocket connection whose first packet is a
+		// channel create.  What the earlier connections achieved is nothing to the last one.
+		p0 := tw.Plans[0]
+		id := p0.ConnID
+		orphan := c.W.NewTunClient("orph", "legacy", p0.From, id)
+		if err := orphan.OpenOut(); err != nil {
+			c.Infra("orphan OUT: %v", err)
+			return
+		}
+		c.S.Run(func() bool { return orphan.Status("out") != 0 || orphan.Failed != "" }, 2000, 2*time.Second)
+		a := &TunPlan{Name: "ra", Transport: "ws", From: p0.From, ConnID: id, User: p0.User, AccessToken: p0.AccessToken, AllowedHost: p0.AllowedHost, CloseAfter: 3}
+		a.Pkts = IdealHistory(c, tw, a, 0, nil, false)[:3]
+		b := &TunPlan{Name: "rb", Transport: "ws", From: p0.From, ConnID: id, User: p0.User, AccessToken: p0.AccessToken, AllowedHost: p0.AllowedHost, CloseAfter: -1}
+		b.Pkts = []CPkt{PChannel(p0.AllowedHost, HostAllowed), PData([]byte("first packet of this connection was a channel create"))}
+		for _, q := range []*TunPlan{a, b} {
+			ts := StartTunnels(c, []*TunPlan{q})
+			t1 := ts[0]
+			c.S.Run(func() bool { return t1.SentAll() || t1.Client.Failed != "" }, 3000, 2*time.Second)
+			c.S.Run(nil, 400, 300*time.Millisecond)
+			if t1.Client.Failed != "" || t1.Err != "" {
+				c.Infra("tunnel %s transport setup failed: %s %s", q.Name, t1.Client.Failed, t1.Err)
+				return
+			}
+			for _, hn := range []string{p0.AllowedHost} {
+				if c.W.Host[hn] != nil {
+					t1.Hosts = append(t1.Hosts, c.W.Host[hn])
+				}
+			}
+			CheckTunnel(c, t1, tw.MC, "C01")
+			if c.S.Viol != nil {
+				c.S.Viol.Msg = "[one connection id used by three connections in a row] " + c.S.Viol.Msg
+				return
+			}
+			t1.Client.CloseAll(false)
+			c.S.Run(nil, 200, 200*time.Millisecond)
+		}
+		c.S.Count("probe.connection_id_reused_in_sequence")
+		c.Res.Reach = true
+		c.Samplef("connection id %s: orphan legacy OUT, websocket up to tunnel auth, websocket starting with a channel create: refused", id)
+		return
+	}
 	tw.Tuns = StartTunnels(c, tw.Plans)
 	RunTunnels(c, tw.Tuns, 4000)
 	reach := false
